@@ -229,6 +229,18 @@ func vpReplay(t *testing.T, consts map[string]int, beh []vhStep) (steps int) {
 			}
 		case "setmax":
 			continue // not part of the processor's API
+		case "age":
+			old := time.Now().Add(-2 * time.Duration(np.MaxAge))
+			ents, _ := os.ReadDir(dir)
+			for _, e := range ents {
+				os.Chtimes(filepath.Join(dir, e.Name()), old, old)
+			}
+		case "purge":
+			// exactly what NodeProcessor.run does on its purge tick
+			if err := np.queue.PurgeOlderThan(time.Now().Add(-np.MaxAge)); err != nil {
+				mis("proc:purge:error", fmt.Sprintf("step %d: %v", i, err), i)
+				return
+			}
 		default:
 			t.Fatalf("unknown action %q", st.A)
 		}
